@@ -161,19 +161,24 @@ theorem baseFromFile_ok {fs : FS} {f ref : String} {S : KVs} (h : baseFromFile f
     fileServices fs f = some S ∧ lookup ref S ≠ none := by
   unfold baseFromFile at h
   unfold fileServices
-  split at h <;> try cases h
-  rename_i doc rerr hl
-  rw [hl]
-  split at h <;> try cases h
-  rename_i svcs hs
-  split at h <;> try cases h
-  rename_i x hx
-  cases rerr with
-  | true => simp at h
-  | false =>
-    simp only [Bool.false_eq_true, ↓reduceIte, Out.ok.injEq] at h
-    subst h
-    simp [hs, hx]
+  split at h
+  · cases h
+  · cases h
+  · cases h
+  · rename_i doc rerr hl
+    rw [hl]
+    split at h <;> try cases h
+    rename_i svcs hs
+    split at h <;> try cases h
+    rename_i x hx
+    cases rerr with
+    | true => simp at h
+    | false =>
+      simp only [Bool.false_eq_true, ↓reduceIte, Out.ok.injEq] at h
+      subst h
+      simp [hs, hx]
+  · split at h <;> try cases h
+    split at h <;> cases h
 
 theorem resolveBase_ok {E : Env} {cur name ref : String} {file : Option String} {S S' : KVs} {key : Key} {same : Bool}
     (h : resolveBase E cur name ref file S = .ok (S', key, same)) :
